@@ -549,6 +549,10 @@ def circuit_method(I, recv, o, name, args, kwargs, e, fr):
             ot = ("unknown", f"compose of non-circuit value {other!r} at {where(fr, e)}")
         else:
             ot = oo.term
+        extra = sorted(k for k, v in kwargs.items() if k not in ("other", "qubits", "clbits", "front", "inplace", "copy") and not (isinstance(v, Const) and v.v in (False, None)))
+        if extra:
+            # wrap=True packs the other circuit into ONE opaque instruction; var_remap / inline_captures change its contents
+            ot = ("unknown", f"compose with {', '.join(extra)}= (the composed circuit does not arrive gate by gate) at {where(fr, e)}")
         q = qubits
         if isinstance(q, Ref):
             qo = I.heap[q.oid]
